@@ -219,7 +219,7 @@ func (c *c12x) chunk(d *c12xCk) {
 		return
 	}
 	if rep.DistinctNontrivial(kit.Hash("chunk", want)) {
-		rep.Sample(2, map[string]interface{}{"part": "chunks", "chunk": d})
+		rep.Sample(1, map[string]interface{}{"part": "chunks", "chunk": d})
 	}
 	var buf []byte
 	var dec *ChunkImpl
@@ -589,7 +589,7 @@ func (c *c12x) schemaText(text string) {
 	}
 	want := influxql.VerifC12CanonFields(sel.Fields)
 	if rep.DistinctNontrivial(kit.Hash("fields", want)) {
-		rep.Sample(2, map[string]string{"part": "schema", "text": text, "printed": printed})
+		rep.Sample(3, map[string]string{"part": "schema", "text": text, "printed": printed})
 	}
 
 	// --- QuerySchema
